@@ -76,7 +76,12 @@ func (i *argumentsPropIter) next() (propIterItem, iterNextFunc) {
 		return propIterItem{}, nil
 	}
 	if prop, ok := item.value.(*mappedProperty); ok {
-		item.value = *prop.v
+		if prop.writable && prop.enumerable && prop.configurable {
+			item.value = *prop.v
+		} else {
+			// let the consumer look the property up, so that it sees its attributes
+			item.value = nil
+		}
 	}
 	return item, i.next
 }
